@@ -328,7 +328,22 @@ def check_non_interactive(ctx, case, by_construction=False):
 
     Question._has_stty_available = lambda self: False
     ctx.case("non-interactive", case, True, distinct_by_construction=by_construction)
-    io, inp, out, err = make_io(["a", "b"], interactive=False)
+    via = case.get("via", "io")
+    if via == "io":
+        io, inp, out, err = make_io(["a", "b"], interactive=False)
+    else:
+        # interaction is switched off on the shared input after the I/O was already asked about it once
+        io, inp, out, err = make_io(["a", "b"], interactive=True)
+        if via == "section-after-query":
+            parent, io = io, io.section()
+            io.is_interactive()
+            parent.set_interactive(False)
+        else:
+            io.is_interactive()
+            io.input.set_interactive(False)
+        if io.is_interactive():
+            ctx.fail("non-interactive", "C18.non-interactive", case, "is_interactive() false", True, sig="is-interactive-" + via)
+            return
     if case["kind"] == "choice":
         q = ChoiceQuestion("pick", list(case["choices"]), case["default"])
         q.set_multi_select(case["multi"])
@@ -421,7 +436,9 @@ def run(ctx):
     for ch in CHOICE_LISTS:
         for multi in (False, True):
             for default in defaults_for(ch, multi):
-                check_non_interactive(ctx, {"kind": "choice", "choices": ch, "multi": multi, "default": default}, True)
+                for via in ("io", "input-after-query", "section-after-query"):
+                    check_non_interactive(ctx, {"kind": "choice", "choices": ch, "multi": multi, "default": default, "via": via}, True)
     for default in (None, "x", 5):
-        check_non_interactive(ctx, {"kind": "plain", "default": default}, True)
+        for via in ("io", "input-after-query", "section-after-query"):
+            check_non_interactive(ctx, {"kind": "plain", "default": default, "via": via}, True)
     ctx.exhaustive("non-interactive", True, "choice lists x modes x defaults, plain questions")
